@@ -76,7 +76,7 @@ func (c ccase) defects() string {
 
 func genCase(r *rand.Rand) ccase {
 	c := ccase{Begin: core.Pick(r, "FIX.4.0", "FIX.4.1", "FIX.4.2", "FIX.4.3", "FIX.4.4", "FIXT.1.1"), Initiator: r.Intn(2) == 0, CheckLat: r.Intn(5) > 0,
-		State: core.Pick(r, "insession", "insession", "insession", "recovering", "pending", "logonpending"),
+		State: core.Pick(r, "insession", "insession", "insession", "recovering", "pending", "logonpending", "recovering+pending"),
 		Kind:  core.Pick(r, "D", "D", "D", "0", "1", "2", "3", "4g", "4r", "5", "A"),
 		V8:    "ok", V49: "ok", V56: "ok", V52: "in", V34: "ok"}
 	c.Dict = r.Intn(12) == 0 && c.Begin != "FIXT.1.1"
@@ -293,7 +293,7 @@ func expected(c ccase) (accept []string, anyDefect bool) {
 			accept = append(accept, fmt.Sprintf("reject:%d", t.tag))
 		}
 	}
-	if c.State != "recovering" {
+	if c.State != "recovering" && c.State != "recovering+pending" {
 		switch c.V52 {
 		case "past", "future":
 			if c.CheckLat {
@@ -433,6 +433,13 @@ func runCase(c *core.Ctx, r *core.Result, stream string, i int, rng *rand.Rand, 
 			l.Timeout(0) // PeerTimeout -> TestRequest, pending
 			if !l.Snap().Pending {
 				r.Count("harness.pending_not_reached", 1)
+				return
+			}
+		case "recovering+pending":
+			l.In("Heartbeat (too high, opens a gap)", p.Msg("0", p.NextOut+4, nil, nil))
+			l.Timeout(0) // the peer stays silent during the recovery: TestRequest, pending
+			if sn := l.Snap(); !sn.Resend || !sn.Pending {
+				r.Count("harness.recovering_pending_not_reached", 1)
 				return
 			}
 		}
